@@ -5,9 +5,9 @@ set -uo pipefail
 cd "$(dirname "$0")"
 export PATH=/opt/veriftools/go1.26.8/bin:$PATH GOPROXY=off GOSUMDB=off GOTOOLCHAIN=local
 unset GOWORK || true
-prop="$1"; tier="${2:-quick}"; shift; shift || true
+prop="$1"; tier="${2:-${VERIF_TIER:-quick}}"; shift; shift || true
 if [ ! -x bin/sgcheck ] || [ -n "$(find sgcheck -name '*.go' -newer bin/sgcheck -not -path 'sgcheck/vendor/*' 2>/dev/null | head -1)" ]; then
   GOFLAGS=-mod=vendor ./setup.sh >/dev/null || { echo "VIOLATION property=$prop replay=/verif/out/build-failed"; exit 1; }
 fi
 export GOFLAGS=-mod=mod
-exec bin/sgcheck -repo "${VERIF_REPO:-/repo}" -property "$prop" -tier "${VERIF_TIER:-$tier}" "$@"
+exec bin/sgcheck -repo "${VERIF_REPO:-/repo}" -property "$prop" -tier "$tier" "$@"
